@@ -5,8 +5,6 @@ import (
 	"go/types"
 	"sort"
 	"strings"
-
-	"golang.org/x/tools/go/ssa"
 )
 
 // c12R9: the error pages a site configures are the ones the handler will read.  errorsParse is evaluated (E10) on
@@ -137,43 +135,103 @@ func c12R10(h H) {
 }
 
 // c12R11: the errors handler answers an error status once.  errorPage writes the configured page or falls back on the
-// plain text answer; both commit the header.  On no path does one committing call follow another: every call of
-// ResponseWriter.WriteHeader, httpserver.DefaultErrorFunc and httpserver.WriteTextResponse in ErrorHandler.errorPage
-// is unreachable from every other one.
+// plain text answer; both commit the header.  ErrorHandler.errorPage is evaluated (E10; the file system, the response
+// writer, io.Copy and the plain-text fallback are oracles that count header commits) for a configured page that cannot
+// be opened, that is a directory, that is copied completely and whose copy fails half way, and for a status without a
+// page: in every case the header is committed exactly once.
 func c12R11(h H) {
 	r := h.r
-	r.Rule("R11", "the error page is committed once: in errors.ErrorHandler.errorPage no call that commits the response header (ResponseWriter.WriteHeader, httpserver.DefaultErrorFunc, httpserver.WriteTextResponse) is reachable from another one", 1)
+	r.Rule("R11", "the error page is committed once, as a table (E10) of errors.ErrorHandler.errorPage over {no page configured; page cannot be opened; page is a directory; page copied; copy fails after the header}: exactly one call commits the response header (ResponseWriter.WriteHeader or the plain-text fallback) in every case", 1)
 	fn := h.fn("R11", "caskethttp/errors", "ErrorHandler.errorPage")
 	if fn == nil {
 		return
 	}
-	var commits []ssa.Instruction
-	for _, g := range withHelpers(fn, 1) {
-		if g != fn {
-			continue
+	ehT := fn.Params[0].Type()
+	reqT := derefType(fn.Params[2].Type())
+	var pagesT *types.Map
+	if st, ok := underlying(ehT).(*types.Struct); ok {
+		for i := 0; i < st.NumFields(); i++ {
+			if m, ok := underlying(st.Field(i).Type()).(*types.Map); ok && st.Field(i).Name() == "ErrorPages" {
+				pagesT = m
+			}
 		}
-		allInstrs(g, func(in ssa.Instruction) {
-			c := callOf(in)
-			if c == nil {
-				return
-			}
-			n := calleeName(c)
-			if (c.IsInvoke() && c.Method.Name() == "WriteHeader") || strings.HasSuffix(n, "httpserver.DefaultErrorFunc") || strings.HasSuffix(n, "httpserver.WriteTextResponse") {
-				commits = append(commits, in)
-			}
-		})
 	}
-	if len(commits) < 2 {
-		r.Unresolve("R11", "ErrorHandler.errorPage: fewer than two header-committing calls found (page and fallback)")
+	hdrT, _ := types.Unalias(h.p.typeByName("net/http", "Header")).Underlying().(*types.Map)
+	if pagesT == nil || hdrT == nil {
+		r.Unresolve("R11", "errors.ErrorHandler.ErrorPages / http.Header not found")
 		return
 	}
-	bad := ""
-	for _, a := range commits {
-		for _, b := range commits {
-			if a != b && canReach(fn, a, b, cut{}) && bad == "" {
-				bad = sprintf("after the header was committed at %s, the call at %s commits it again", h.p.Pos(a.Pos()), h.p.Pos(b.Pos()))
+	type cs struct {
+		name                                    string
+		configured, openFails, isDir, copyFails bool
+	}
+	cases := []cs{
+		{"no page configured for the status", false, false, false, false},
+		{"the page cannot be opened", true, true, false, false},
+		{"the page is a directory", true, false, true, false},
+		{"the page is copied completely", true, false, false, false},
+		{"the copy fails after the header was written", true, false, false, true},
+	}
+	bad, n := "", 0
+	for _, c := range cases {
+		mk := func(name string) *aobj { return &aobj{name: name, typ: types.Typ[types.Int], f: map[string]aval{}} }
+		commits := 0
+		env := &absEnv{globals: map[string]*aobj{}, noFork: true, maxSteps: 100000}
+		env.ext = func(callee string, args []aval) (aval, bool) {
+			switch {
+			case callee == "os.Open":
+				if c.openFails {
+					return atuple{anil{}, aiface{aptr{mk("open error"), ""}, types.Typ[types.Int]}}, true
+				}
+				return atuple{aptr{mk("page file"), ""}, anil{}}, true
+			case callee == "(*os.File).Stat":
+				return atuple{aiface{aptr{mk("file info"), ""}, types.Typ[types.Int]}, anil{}}, true
+			case callee == "invoke:IsDir":
+				return abool(c.isDir), true
+			case callee == "(*os.File).Close":
+				return anil{}, true
+			case callee == "mime.TypeByExtension":
+				return astr("text/html"), true
+			case callee == "invoke:Header":
+				return amap{&amapData{vals: map[string]aval{}, keys: map[string]aval{}, typ: hdrT}}, true
+			case callee == "invoke:WriteHeader":
+				commits++
+				return atuple{}, true
+			case callee == "io.Copy":
+				if c.copyFails || c.isDir {
+					return atuple{aint(0), aiface{aptr{mk("read error"), ""}, types.Typ[types.Int]}}, true
+				}
+				return atuple{aint(10), anil{}}, true
+			case strings.HasSuffix(callee, "httpserver.DefaultErrorFunc"), strings.HasSuffix(callee, "httpserver.WriteTextResponse"):
+				commits++
+				return atuple{}, true
+			case callee == "invoke:Printf", callee == "(*net/url.URL).String", strings.HasSuffix(callee, "Logger).Printf"):
+				if strings.HasSuffix(callee, "String") {
+					return astr("/x"), true
+				}
+				return atuple{}, true
 			}
+			return nil, false
+		}
+		pages := amap{&amapData{vals: map[string]aval{}, keys: map[string]aval{}, typ: pagesT}}
+		if c.configured {
+			pages.m.vals["i:404"] = astr("/srv/404.html")
+			pages.m.keys["i:404"] = aint(404)
+		}
+		eh := astruct{map[string]aval{"ErrorPages": pages, "GenericErrorPage": astr(""), "Log": aptr{mk("logger"), ""}, "Debug": abool(false)}}
+		url := &aobj{name: "url", typ: types.Typ[types.Int], f: map[string]aval{}}
+		req := &aobj{name: "request", typ: reqT, f: map[string]aval{"URL": aptr{url, ""}}}
+		req.in = func(o *aobj, path string, t types.Type) aval { return aunk{"request field " + path} }
+		_, und := env.run(fn, []aval{eh, aiface{aptr{mk("writer"), ""}, types.Typ[types.Int]}, aptr{req, ""}, aint(404)})
+		n++
+		if und != "" {
+			bad = c.name + ": undecided — " + und
+			break
+		}
+		if commits != 1 {
+			bad = fmt.Sprintf("%s: the response header is committed %d times, specification says once", c.name, commits)
+			break
 		}
 	}
-	r.Check(bad == "", "R11", "errors.ErrorHandler.errorPage/commits-once", fn.Pos(), "one committing call per path", sprintf("%d committing calls", len(commits)), bad)
+	r.Check(bad == "", "R11", "errors.ErrorHandler.errorPage/commits-once", fn.Pos(), "one committing call per case", fmt.Sprintf("%d cases evaluated", n), bad)
 }
